@@ -136,7 +136,9 @@ func main() {
 				"[" + p + "]", "[" + p + " | " + sel + "]", "[.[]? | " + sel + "]", "map(" + sel + ")?", "[]", "{}", "[.]", "{a: .}", "{a: (" + p + ")}", "[" + body + "]", "(" + body + ")",
 				"(" + p + " | [.[]?])", "(" + p + " | {x: .})", "to_entries?", "keys?", "[paths]", "(. as $x | [$x[]?])", "([" + p + "] | .[1:])", "(tojson | fromjson)", "(" + p + " | tostring)",
 			})
-			nav := common.Pick(r, []string{"[]", "[0]", ".a", "[1:]", "[]?", ".a?", "[0]?", "[]?[]?", ".x", "[-1]", "[:1]"})
+			nav := common.Pick(r, []string{"[]", "[0]", ".a", "[1:]", "[]?", ".a?", "[0]?", "[]?[]?", ".x", "[-1]", "[:1]",
+				// bounds and keys that are COMPUTED (compiled to the _slice / _index natives, not to opindex)
+				"[(1):]", "[:(length - 1)]", "[(0):(1)]", "[1:(2)]", "[(0)]", "[(\"a\")]", "[(1, 0)]", "[(0):]?", "[:(1)]?", "[(length - 1):]"})
 			acc := comp + " | ." + nav
 			if nav[0] == '.' {
 				acc = comp + " | " + nav
@@ -260,6 +262,9 @@ func concretePaths(v any, prefix string, depth int, out *[]string) {
 			*out = append(*out, p)
 			concretePaths(x, p, depth+1, out)
 		}
+		// fractional bounds: reading rounds the start down and the end up; writing must act on
+		// exactly the elements the path outputs
+		*out = append(*out, fmt.Sprintf("%s[%d:%d.5]", prefix, 0, max(n-2, 0)), fmt.Sprintf("%s[0.5:%d.5]", prefix, max(n-1, 0)), fmt.Sprintf("%s[:1.2]", prefix), fmt.Sprintf("%s[1.7:]", prefix), fmt.Sprintf("%s[(0.5):(1.5)]", prefix))
 		for lo := 0; lo <= n && lo <= 3; lo++ {
 			*out = append(*out, fmt.Sprintf("%s[%d:]", prefix, lo))
 			for hi := lo; hi <= n && hi <= lo+2; hi++ {
@@ -464,5 +469,7 @@ var fixed = []string{
 	"(.[0]?, .[0]?) |= [.]", "(.a?, .a?.b?) |= {x: .}", "(.. | select(type == \"number\")) |= . + 1", "(.[]? | select(. == 1)) |= 2", ".a? = 1", ".[0]? = 1", "(.a?, .b?) = (1, 2)", ".[]? = 1", ".a? += 1", ".[]? += 1", ".a? //= 5", "del(.[0]?)", "del(.a?)", "del(.[]?)", "del(.[0]?, .[1]?)",
 	"del(.[1:]?)", "del(.. | select(. == null))?", "delpaths([[0],[1]])?", "delpaths([[\"a\"]])?", "delpaths([[0,0],[0]])?", "delpaths([])", "to_entries?", "with_entries(.)?", "with_entries(.value |= [.])?", "map_values(. // 0)?", "map_values(empty)?", "pick(.a?)", "pick(.[0]?)", "pick(.a?.b?)", "[tostream]", "fromstream(tostream)",
 	"[paths(type == \"number\")]", "[paths(..)]", "getpath([\"a\",\"b\"])?", "setpath([\"a\",\"b\"]; 1)?", "setpath([0]; 1)?", "setpath([]; 1)", "setpath([1:2]; [9])?"[:0] + "setpath([{\"start\":1,\"end\":2}]; [9])?", "[.[]?] | .[1:] = [7]", "[.[]?] | .[2] = 7", "[.[]?] | del(.[0])", "reduce path(.[]?) as $p (.; setpath($p; 1))", "[getpath(path(..))] == [..]",
+	"[0,1,2,3] | .[1:2.5] |= map(. * 10)", "[0,1,2,3] | .[1:2.5] = [\"x\"]", "[0,1,2,3] | del(.[1:2.5])", "[0,1,2,3] | [.[1:2.5]] == [getpath(path(.[1:2.5]))]", "[0,1,2,3] | setpath([{\"start\": 1, \"end\": 2.5}]; [9]) | getpath([{\"start\": 1, \"end\": 2.5}])", "[0,1,2,3] | delpaths([[{\"start\": 0.5, \"end\": 1.5}]])", ".[1:1.5]? |= [7]", "1.5 as $e | [0,1,2,3] | .[1:$e] |= map(-.)",
+	"try (([7,8,9] | .[(1):2]) = [\"x\"]) catch \"invalid\"", "try del(map(. * 2)? | .[(length - 1):]) catch \"invalid\"", "1 as $n | try ((.[]? | [.] | .[:$n]) |= [0]) catch \"invalid\"",
 	"([[null]] | (.[0][0], .[0], .[0][0][0]) |= [., .])", "([0,1,2,3] | (.[2], .[0:1][1]) |= 7)", "([0,1] | (.[1:], .[1:]) |= [.])", "({\"a\":{\"b\":null}} | (.a.b, .a, .a.x.b) |= {x: ., y: .})", "[0,1,2,3] | delpaths([[1],[2]])", "[0,1,2,3] | del(.[1,2])", "[1,2,3] | (.[] | select(. >= 2)) |= empty", "[[1,2],[3]] | .[][0] |= . + 1",
 }
